@@ -304,6 +304,22 @@ def run(ctx):
                                part="shared signal channel", code=bad[r0]["st"]),
                           dict(scenario=sc, results=out["results"]))
     ctx.extra["shared_signal_channel_sessions"] = len(shared)
+    # a run ID used again while the server goroutine of its first use is still inside the Write call of its work-done
+    # (a write that returns late: the client already has the result): the second call waits for its signal, the first
+    # run's goroutine runs on, then the signal is sent - the second call returns the token of ITS signal
+    reuse_sig = [dict(id="reusesig/cap%d" % cap, mode="reusesig", cap=cap, runs=[]) for cap in (0, 2)]
+    for sc, rr in zip(reuse_sig, A.run_driver(ctx, reuse_sig, label="c05reusesig")):
+        out = C6.judge_session(ctx, sc, rr, what="run ID reused behind a late write")
+        if out is None or out.get("stuck"):
+            continue
+        ctx.count(sc["id"])
+        for which in ("first", "second"):
+            e = out["results"].get(which) or {}
+            if not (e.get("st") == "ok" and e.get("token_ok")):
+                ctx.violation(dict(kind="lost_or_wrong_result", part="run ID reused behind a late write", call=which, code=str(e.get("st"))),
+                              dict(scenario=sc, results=out["results"]))
+                break
+    ctx.extra["reuse_behind_late_write_sessions"] = len(reuse_sig)
     # the signal path as a specification of its own (spec/ATPSignals.tla): exhaustive for four runs and every order of
     # addressing, the named deviation (the write loop stamps its own run ID) must violate Addressed, and every real
     # session above is validated by ATPSignalsTrace.tla (which loop took which signal is not logged: TLC infers it)
@@ -362,10 +378,12 @@ def run(ctx):
     v1 = []
     for i in range(12 if thorough else 4):
         pl = [1 + (i * 5 + k) % 9 for k in range(4)]            # valid payloads (catalogue entries 1..9)
-        runs = [dict(id="r%d" % (k + 1), beh="ok", echo=x) for k, x in enumerate(pl)]
+        runs = [dict(id="r%d" % (k + 1), beh="ok", echo=x, sig=bool((i + k) % 2)) for k, x in enumerate(pl)]   # every other caller passes (and later closes) a signalsToStep channel
         if i % 2:
             runs.append(dict(id="r9", beh="ok", echo=10 + i % 9))  # a rejected input last
         v1.append(dict(id="v1echo/%d" % i, mode="v1echo", cap=i % 3, frag=bool(i % 2), seed=ctx.seed * 77 + i, runs=runs))
+        # the same session against a plugin that writes its work-done the way legacy v1 plugins did (no step_id key)
+        v1.append(dict(id="v1echo/%d/legacy" % i, mode="v1echo", cap=i % 3, frag=bool(i % 2), seed=ctx.seed * 77 + i, runs=runs, v1_legacy=True))
     for sc, rr in zip(v1, A.run_driver(ctx, v1, label="c05v1")):
         out = judge(ctx, sc, rr, "v1 session")
         if out is not None:
